@@ -165,7 +165,33 @@ func noCutFor(tr **dev.FakeTransport) func(pending []byte, k int) bool {
 }
 
 func scenario(s dlg) sched.Scenario {
-	return sched.Scenario{Name: s.name(), Run: func(w *sched.W) {
+	return sched.Scenario{Name: s.name(), Run: func(w *sched.W) { runDlg(w, s, -1) }}
+}
+
+// hangScenario: the peer hangs up (end of stream) after byte k of the login stream, for every k up to the
+// point where the unperturbed Open returns: Open fails promptly and the transport is closed.
+func hangScenario(s dlg) sched.Scenario {
+	return sched.Scenario{Name: "hangup/" + s.name(), Run: func(w *sched.W) {
+		if r := w.Replaying(); r != nil {
+			var k int
+			fmt.Sscanf(r.Case, "hang=%d", &k)
+			runDlg(w, s, k)
+			return
+		}
+		L := runDlg(w, s, -1)
+		for k := 0; k < L; k++ {
+			if w.Expired() {
+				return
+			}
+			w.SetCase(fmt.Sprintf("hang=%d", k))
+			w.Extra("hangup_points", 1)
+			runDlg(w, s, k)
+		}
+	}}
+}
+
+func runDlg(w *sched.W, s dlg, hangAt int) (sentAtOpenEnd int) {
+	{
 		cfg := cm.Cfg()
 		cfg.NoPreAlt, cfg.NoIdleAlt = true, s.env == 0
 		cfg.Horizon = 5 * time.Second
@@ -179,6 +205,9 @@ func scenario(s dlg) sched.Scenario {
 			tr := dev.NewFake(e, d)
 			tr.MaxChunk, tr.Cuts = s.maxChunk, s.env > 0
 			tr.NoCut = noCutFor(&tr)
+			if hangAt >= 0 {
+				tr.Loss, tr.LossAt = dev.LossEOF, hangAt
+			}
 			var impl transport.Implementation
 			if strings.HasPrefix(s.kind, "telnet") {
 				impl = dev.FakeTelnet{FakeTransport: tr}
@@ -213,7 +242,8 @@ func scenario(s dlg) sched.Scenario {
 				t0 = e.Now()
 				openErr = g.Open()
 				t1 = e.Now()
-				if openErr == nil {
+				sentAtOpenEnd = tr.Sent()
+				if openErr == nil && hangAt < 0 {
 					gotPrompt, promptErr = g.GetPrompt()
 				}
 			})
@@ -233,6 +263,22 @@ func scenario(s dlg) sched.Scenario {
 					wantOK, wantErr = false, "auth"
 				}
 				e.Observe("open=%s prompt=%q", cm.ErrClass(openErr), gotPrompt)
+				if hangAt >= 0 {
+					// the stream ended inside the login dialogue
+					if openErr == nil {
+						return // the prompt was reached before the end of the stream was seen
+					}
+					if tr.CloseCalls == 0 {
+						e.Violate("c10:transport-left-open", "peer hung up after %d bytes, Open failed (%v) but Implementation.Close was not called", hangAt, openErr)
+					}
+					if c := cm.ErrClass(openErr); c != "connection" && c != "auth" {
+						e.Violate("c10:hangup-error-class", "peer hung up after %d bytes: %v", hangAt, openErr)
+					}
+					if t1-t0 > timeout {
+						e.Violate("c10:slow-failure", "peer hung up after %d bytes, Open took %v", hangAt, t1-t0)
+					}
+					return
+				}
 				// credentials only in answer to their own prompt, each at most twice
 				count := map[string]int{}
 				for _, l := range d.Lines {
@@ -292,7 +338,8 @@ func scenario(s dlg) sched.Scenario {
 				}
 			})
 		})
-	}}
+	}
+	return sentAtOpenEnd
 }
 
 func scenarios(tier string) []sched.Scenario {
@@ -346,6 +393,18 @@ func scenarios(tier string) []sched.Scenario {
 			}
 		}
 	}
+	// the peer hangs up at every point of the dialogue
+	for _, mc := range []int{0, 7} {
+		out = append(out,
+			hangScenario(dlg{"telnet", 1, 0, 0, 1, -1, -1, 0, mc, 0}),
+			hangScenario(dlg{"telnet", 0, 1, 1, 3, -1, -1, 0, mc, 0}),
+			hangScenario(dlg{"telnet-passonly", 0, 0, 0, 0, -1, -1, 0, mc, 0}),
+			hangScenario(dlg{"ssh", 2, 0, 2, 1, 1, -1, 0, mc, 0}),
+			hangScenario(dlg{"ssh-nc", 0, 0, 2, 0, -1, -1, 0, mc, 0}),
+			hangScenario(dlg{"ssh", 1, 0, 2, 0, -1, 3, 1, mc, 0}),
+			hangScenario(dlg{"ssh", 1, 0, 2, 0, -1, 10, 0, mc, 0}),
+		)
+	}
 	return out
 }
 
@@ -354,7 +413,7 @@ func TestCheck(t *testing.T) {
 		ID:          "C10",
 		Level:       "model_checking",
 		Rule:        "all paths of a login state machine: telnet {user+password, password only} x 3 banners x 3 user-prompt spellings x 3 password-prompt spellings x 0..3 rejected attempts; ssh {shell, NETCONF hello after login} x banners x 2 password spellings x 0..3 rejected passwords x {no passphrase, 0..3 rejected passphrases}; 11 ssh client error lines at 2 positions; x read presets {whole, 1, 7 bytes} with every placement of up to 1 (2 thorough) extra cuts/holds that does not leave a banner line looking like a prompt; oracle = the same machine run abstractly (success iff each credential asked at most twice; error classes), device-side (state, line) log, transport closed on failure, first GetPrompt / capability exchange after login",
-		Assumptions: []string{"rejections re-prompt without printing an ssh failure message", "silence during login is C05's case (stall-point enumeration over telnet.Open / ssh.Open)"},
+		Assumptions: []string{"rejections re-prompt without printing an ssh failure message", "the peer hanging up is explored at every byte offset of 7 dialogues (whole-message and 7-byte reads)", "silence during login is C05's case (stall-point enumeration over telnet.Open / ssh.Open)"},
 		Scenarios:   scenarios,
 		Budget:      map[string]time.Duration{"quick": 5 * time.Minute, "thorough": 40 * time.Minute},
 	})
